@@ -26,7 +26,7 @@ let rec nat_of_int (x : int) : Datatypes.nat = if x <= 0 then Datatypes.O else D
 (* ---- token stream over one line ---- *)
 type toks = { mutable rest : string list }
 let toks_of_line (l : string) : toks =
-  { rest = Stdlib.List.filter (fun s -> s <> "") (String.split_on_char ' ' l) }
+  { rest = Stdlib.List.filter (fun s -> s <> "") (Stdlib.String.split_on_char ' ' l) }
 let next_tok (t : toks) : string =
   match t.rest with
   | [] -> failwith "unexpected end of line"
@@ -40,8 +40,8 @@ let next_str (t : toks) : coq_N list =
   Stdlib.List.init len (fun _ -> next_n t)
 
 let str_out (s : coq_N list) : string =
-  String.concat " " (string_of_int (Stdlib.List.length s) :: Stdlib.List.map string_of_n s)
-let ids_out (l : coq_N list) : string = String.concat " " (Stdlib.List.map string_of_n l)
+  Stdlib.String.concat " " (string_of_int (Stdlib.List.length s) :: Stdlib.List.map string_of_n s)
+let ids_out (l : coq_N list) : string = Stdlib.String.concat " " (Stdlib.List.map string_of_n l)
 let b01 (b : bool) : string = if b then "1" else "0"
 
 let msg_of (t : toks) : Msg.msg =
@@ -58,9 +58,9 @@ let read_scenarios (path : string) : scenario list =
   let cur = ref None in
   (try
      while true do
-       let l = String.trim (input_line ic) in
-       if l = "" || l.[0] = '#' then ()
-       else if String.length l >= 8 && String.sub l 0 8 = "SCENARIO" then begin
+       let l = Stdlib.String.trim (input_line ic) in
+       if l = "" || Stdlib.String.get l 0 = '#' then ()
+       else if Stdlib.String.length l >= 8 && Stdlib.String.sub l 0 8 = "SCENARIO" then begin
          let t = toks_of_line l in
          let _ = next_tok t in
          let cls = next_tok t in
